@@ -141,9 +141,10 @@ def run(prog, chk):
                     why = why2 if ok2 else ("unbounded wait on %s, which %s clears after the caller's open-state test: a teardown "
                                             "between that test and the clear is lost (%s)" % (recv, clears[0], why2))
             else:
-                ok, why = poll_discharged(fl, node)
-                if not ok:
-                    why = "wait on %s with a caller-supplied/unbounded timeout and no teardown signal known for it (%s)" % (recv, why)
+                # a liveness test after the wait does not help if the wait itself can last for ever
+                ok = False
+                why = ("wait on %s with an unbounded / computed timeout: only a teardown signal could end it, and none is "
+                       "established for this event on every teardown path (local close() skips abort()/completion signals)" % recv)
         elif kind == "cv":
             okp, whyp = poll_discharged(fl, node)
             src = TEARDOWN_CVS.get(recv)
